@@ -339,8 +339,9 @@ def run_decrypt_cases(ctx, suite, cases, check_c02=True, expect=None, prop=None)
                            {"case": c.describe(), "impl": repr(impl)[:300]}, f"{kind}:{c.note}")
             elif pt != impl[1][0]:
                 ctx.report(f"returned plaintext differs from the authenticated one ({c.note})", {"case": c.describe(), "impl": repr(impl)[:300]}, f"{kind}:{c.note}:plaintext")
-        if expect is not None:
-            msg = expect(c, impl)
+        ex = getattr(c, "expect", None) or expect
+        if ex is not None:
+            msg = ex(c, impl)
             if msg:
                 ctx.report(msg, {"case": c.describe(), "impl": repr(impl)[:300]}, f"{kind}:{c.note}")
     return cases
@@ -391,3 +392,90 @@ def build_multi(rng, enc, algs, plaintext=b"multi", aad=None, zip_=False, corrup
     meta = {"alg": "+".join(algs), "enc": enc, "key": key_name(algs[0], enc), "plaintext": plaintext, "zip": zip_, "serialization": "general", "sender": None,
             "n": len(algs), "corrupt": corrupt, "other_cek_for": other_cek_for}
     return v, KeySet(keys), meta
+
+
+# ------------------------------------------------------------------------------------------------
+# encryption with controlled randomness (C04, C18)
+
+import hashlib  # noqa: E402
+import secrets as _secrets  # noqa: E402
+
+from harness import refprims  # noqa: E402
+
+
+def tape_bytes(idx: int, n: int) -> bytes:
+    """The idx-th draw of n octets: every value reveals its index and is different for different (idx, n)."""
+    out = b""
+    c = 0
+    while len(out) < n:
+        out += hashlib.sha256(f"tape:{idx}:{n}:{c}".encode()).digest()
+        c += 1
+    return out[:n]
+
+
+class Tape:
+    """Replaces secrets.token_bytes and ECKey/OKPKey.generate_key inside this process while active."""
+
+    def __init__(self):
+        self.draws = []
+        self.ephemerals = []
+
+    def __enter__(self):
+        from joserfc.jwk import ECKey, OKPKey
+        self._tb = _secrets.token_bytes
+        self._ec = ECKey.__dict__["generate_key"]
+        self._okp = OKPKey.__dict__["generate_key"]
+        tape = self
+
+        def token_bytes(n=32):
+            v = tape_bytes(len(tape.draws), n)
+            tape.draws.append(n)
+            return v
+
+        def make(orig):
+            def generate_key(cls, *a, **kw):
+                k = orig.__func__(cls, *a, **kw)
+                tape.ephemerals.append(k)
+                return k
+            return classmethod(generate_key)
+        _secrets.token_bytes = token_bytes
+        ECKey.generate_key = make(self._ec)
+        OKPKey.generate_key = make(self._okp)
+        return self
+
+    def __exit__(self, *exc):
+        from joserfc.jwk import ECKey, OKPKey
+        _secrets.token_bytes = self._tb
+        ECKey.generate_key = self._ec
+        OKPKey.generate_key = self._okp
+        return False
+
+    def resolver(self):
+        """Oracle for the model run of the same request: same tape, same ephemeral keys."""
+        eph = list(self.ephemerals)
+
+        def answer(q):
+            if q.startswith("tb:"):
+                _, idx, n = q.split(":")
+                return "ok:" + wire.hx(tape_bytes(int(idx), int(n)))
+            if q.startswith("ge:"):
+                idx = int(q.split(":")[1])
+                if idx < len(eph):
+                    return "ok:" + J.enc_key(eph[idx])
+                return "err:CryptoInternal"
+            return refprims.answer(q)
+        return answer
+
+
+def enc_request_compact(reg, keyarg, sender, prot, plaintext):
+    snd = "~" if sender is None else J.enc_key(sender)
+    return f"jwe.ec {'1' if reg.strict else '0'} {opt_str_list(reg.allowed)} {wire.enc_header_registry(reg.extra)} {J.enc_keyarg(keyarg)} {snd} {enc_jval(prot)} {hx(plaintext)}"
+
+
+def enc_request_json(reg, keyarg, sender, kind, prot, unprot, aad, recips, plaintext):
+    """recips: list of (header|None, Key|None)."""
+    snd = "~" if sender is None else J.enc_key(sender)
+    ka = "~" if keyarg is None else J.enc_keyarg(keyarg)
+    items = "#".join(("~" if h is None else enc_jval(h)) + "@" + ("~" if k is None else J.enc_key(k)) for h, k in recips)
+    return (f"jwe.ej {'1' if reg.strict else '0'} {opt_str_list(reg.allowed)} {wire.enc_header_registry(reg.extra)} {ka} {snd} {kind} {enc_jval(prot)} "
+            f"{'~' if not unprot else enc_jval(unprot)} {'~' if not aad else hx(aad)} {items} {hx(plaintext)}")
